@@ -1,9 +1,10 @@
 #!/bin/sh
-# builds ./driver from the extracted modules in gen/ and driver.ml
+# builds ./driver from the extracted modules in gen/ and drv.ml, cmd_*.ml, zmain.ml
 set -e
 cd "$(dirname "$0")"
-rm -rf _b && mkdir _b && cp gen/*.ml gen/*.mli driver.ml _b/
+rm -rf _b && mkdir _b && cp gen/*.ml gen/*.mli drv.ml cmd_*.ml _b/
 cd _b
 FILES=$(ocamlfind ocamldep -sort *.mli *.ml)
-ocamlfind ocamlopt -O2 -w -a $FILES -o ../driver 2>&1 | grep -v "^$" || true
+cp ../zmain.ml .
+ocamlfind ocamlopt -O2 -w -a $FILES zmain.ml -o ../driver 2>&1 | grep -v "^$" || true
 test -x ../driver
